@@ -194,3 +194,13 @@ def c05pins():
 
 if __name__ == '__main__':
     c05pins()
+
+
+def c06pins():
+    g = Ty('SEQUENCE', root=[M('a', Ty('BOOLEAN'))], ext=[Group([M('b', Ty('BOOLEAN')), M('c', Ty('INTEGER'), optional=True)])])
+    pin('C06', 'oer-groups-flattened', mod([('A', g)]), 'A', {'a': True, 'b': False, 'c': 5}, codec='oer')
+    pin('C06', 'oer-utf8-fixed-size-ascii', mod([('A', Ty('UTF8String', size=Rng(3, 3)))]), 'A', 'foo', codec='oer')
+
+
+if __name__ == '__main__':
+    c06pins()
